@@ -25,7 +25,12 @@ var evals int
 
 // eval runs the real Zeno code once. parentStringed: parent.String() was called before (as the
 // archiver does), which must not matter for a pure function of (text, parent URL).
-func eval(text, parent string, parentStringed bool) (r result) {
+func eval(text, parent string, parentStringed bool) (r result) { return evalP(text, parent, parentStringed, false) }
+
+// evalP: preParsed = the URL value went through Parse() before NormalizeURL, the way the queue
+// sources and the command line build a seed (hq/lq consumer, pipeline.go); the second result tells
+// whether that Parse succeeded (else the evaluation is the same as a fresh one and is skipped).
+func evalP(text, parent string, parentStringed, preParsed bool) (r result) {
 	evals++
 	defer func() {
 		if p := recover(); p != nil {
@@ -46,10 +51,19 @@ func eval(text, parent string, parentStringed bool) (r result) {
 			_ = p.String()
 		}
 	}
+	if preParsed {
+		if err := u.Parse(); err != nil {
+			return result{Err: "pre-parse failed"}
+		}
+	}
 	if err := preprocessor.NormalizeURL(u, p); err != nil {
 		return result{Err: err.Error()}
 	}
-	return result{Raw: u.Raw, Str: u.String()}
+	r = result{Raw: u.Raw, Str: u.String()}
+	if pu := u.GetParsed(); pu == nil || pu.String() != r.Str {
+		r.Str += fmt.Sprintf(" [GetParsed()=%v]", pu) // the parsed form is what is fetched: it must be the canonical one
+	}
+	return r
 }
 
 // Fail is one oracle failure; Sig names clause, observable and failing input class.
@@ -124,6 +138,9 @@ func check(c Case, st *stats) (fails []Fail) {
 	}
 	if c.Parent != "" {
 		diff("parent-String-called-first", eval(c.Text, c.Parent, true))
+	}
+	if r := evalP(c.Text, c.Parent, false, true); r.Err != "pre-parse failed" {
+		diff("url-parsed-before-as-sources-do", r)
 	}
 
 	if def.Err != "" {
